@@ -57,6 +57,30 @@ theorem spelling_lower (bs : List Nat) (h : IsBytes bs) : unhexlify (hexlify bs)
 /-- … and the hex value of a character does not depend on its case -/
 theorem hexVal_upper : ∀ n < 16, hexVal? (hexDigit n).toUpper = some n := by decide
 
+/-- … so the upper-case spelling of every byte string is accepted too, with the same bytes … -/
+theorem spelling_upper (bs : List Nat) (h : IsBytes bs) : unhexlify ((hexlify bs).map Char.toUpper) = some bs := by
+  induction bs with
+  | nil => rfl
+  | cons b bs ih =>
+    have hb : b < 256 := h b (by simp)
+    have hrest : IsBytes bs := fun x hx => h x (List.mem_cons_of_mem _ hx)
+    have h1 := hexVal_upper (b / 16 % 16) (by omega)
+    have h2 := hexVal_upper (b % 16) (by omega)
+    simp only [hexlify, List.flatMap_cons, hexByte, List.map_cons, List.cons_append, List.nil_append]
+    simp only [unhexlify, h1, h2]
+    have := ih hrest
+    simp only [hexlify] at this
+    rw [this]
+    have e : b / 16 % 16 * 16 + b % 16 = b := by omega
+    simp [e]
+
+/-- … and is signed with the very same four bytes (the result keeps the caller's spelling of `p`) -/
+theorem sign_upper (bs : List Nat) (h : IsBytes bs) :
+    sign ((hexlify bs).map Char.toUpper) = .ok ((hexlify bs).map Char.toUpper ++ hexlify (sigBytes bs)) ∧
+    sign (hexlify bs) = .ok (hexlify bs ++ hexlify (sigBytes bs)) :=
+  ⟨sign_ok _ bs (spelling_upper bs h), sign_ok _ bs (unhexlify_hexlify bs h)⟩
+
+
 /- Non-vacuity and an independent oracle: literal signatures pinned by
    tests/test_api_packet_crc_signing.py (values nobody here computed). -/
 def loginPacket : List Char :=
